@@ -83,7 +83,8 @@ def run(ck: Checker):
     from .C07 import gadget_rules, transpose_rule
     den = Denotations(repo)
     gadget_rules(ck, G.GadgetBench(repo, den))
-    transpose_rule(ck)
+    with ck.soft('C08.NUM (add_mul_pow2_m1 and add_square_pow2_m1 instantiated as they stand)'):
+        transpose_rule(ck)
     ck.rule('C08.FOLD', 'for-range templates instantiated for small widths, every operand value, both endiannesses, on a host circuit with gates of its own: add_mul_alter = a * b (n + m bits; n + m - 1 when a width is 1) over the folded two-number adders; add_sub_two_numbers (the subtraction of the Karatsuba recombination) = (a - b) mod 2^len(a); while-loop bit counters replaced by their contract')
     from .. import arith_folds
     bench = arith_folds.fold_mul(ck, 'C08.FOLD')
